@@ -18,7 +18,7 @@ import pandas as pd
 
 from .. import config, lib, record, runner, tlc
 
-NCALLS = 25
+NCALLS = 27
 NAMES = {1: 'jaccard_join(S)', 2: 'jaccard_join(B,allow_missing)', 3: 'cosine_join(B,>)', 4: 'dice_join(B)',
          5: 'overlap_join(B)', 6: 'overlap_coefficient_join(B)', 7: 'edit_distance_join(default tokenizer)',
          8: 'edit_distance_join(Q set-mode qgram)', 9: 'jaccard_join(B) rejected: threshold 1.5',
@@ -30,7 +30,9 @@ NAMES = {1: 'jaccard_join(S)', 2: 'jaccard_join(B,allow_missing)', 3: 'cosine_jo
          19: 'jaccard_join(S) with threshold 0.9', 20: 'PrefixFilter(qgram q=2, EDIT_DISTANCE, 1).filter_tables',
          21: 'PrefixFilter(qgram q=3, EDIT_DISTANCE, 1).filter_tables',
          22: 'overlap_join(Q set-mode qgram)', 23: 'OverlapFilter(S,1).filter_candset on s',
-         24: 'OverlapFilter(S,1).filter_candset on s2', 25: 'jaccard_join(Q set-mode qgram)'}
+         24: 'OverlapFilter(S,1).filter_candset on s2', 25: 'jaccard_join(Q set-mode qgram)',
+         26: 'PositionFilter(qgram q=2, EDIT_DISTANCE, 1).filter_tables',
+         27: 'PositionFilter(qgram q=3, EDIT_DISTANCE, 1).filter_tables'}
 
 
 def fresh_objects():
@@ -97,11 +99,14 @@ def do_call(c, ssj, L, R, C, toks):
         return ssj.dice_join(L, R0, *k, toks['B'], 0.5, **kw)
     if c == 19:
         return ssj.jaccard_join(L, R, *k, toks['S'], 0.9, **kw)
-    if c in (20, 21):
-        qt = sm.QgramTokenizer(qval=2 if c == 20 else 3, padding=False, return_set=False)
-        L2 = pd.DataFrame({'id': [1, 2], 's': pd.Series(['abcdefgh', 'abcdefg'] if c == 21 else ['abcdefg', 'abcdef'], dtype=object)})
-        R2 = pd.DataFrame({'id': [11, 12], 's': pd.Series(['abcXefgh', 'abXdefg'] if c == 21 else ['abcXefg', 'abXdef'], dtype=object)})
-        return ssj.PrefixFilter(qt, 'EDIT_DISTANCE', 1).filter_tables(L2, R2, *k, **kw)
+    if c in (20, 21, 26, 27):
+        # the same token counts under q = 2 and q = 3 (strings one character longer): a value memoised without q is stale
+        big = c in (21, 27)
+        qt = sm.QgramTokenizer(qval=3 if big else 2, padding=False, return_set=False)
+        L2 = pd.DataFrame({'id': [1, 2], 's': pd.Series(['abcdefgh', 'abcdefg'] if big else ['abcdefg', 'abcdef'], dtype=object)})
+        R2 = pd.DataFrame({'id': [11, 12], 's': pd.Series(['abcXefgh', 'abXdefg'] if big else ['abcXefg', 'abXdef'], dtype=object)})
+        cls = ssj.PrefixFilter if c in (20, 21) else ssj.PositionFilter
+        return cls(qt, 'EDIT_DISTANCE', 1).filter_tables(L2, R2, *k, **kw)
     if c == 22:
         return ssj.overlap_join(L, R, *k, toks['Q'], 3, **kw)
     if c == 23:
